@@ -729,20 +729,12 @@ impl Session {
                     "Unknown alert".to_string()
                 };
                 tracing::error!("[Session] Received Alert frame (fatal): {}", alert_msg);
-                // Close all streams
-                let mut streams = self.streams.write().await;
-                for (stream_id, stream) in streams.drain() {
-                    let error = AnyTlsError::Protocol(format!(
-                        "Session closed due to alert: {}",
-                        alert_msg
-                    ));
-                    stream.close_with_error(error).await;
-                    tracing::debug!("[Session] Closed stream {} due to alert", stream_id);
+                // A fatal alert ends the session: go through close() so that blocked
+                // readers and pending opens are released, the forwarding task is
+                // notified and the transport is shut down.
+                if let Err(e) = self.close().await {
+                    tracing::debug!("[Session] Failed to close session after alert: {}", e);
                 }
-                drop(streams);
-                // Mark session as closed
-                self.is_closed
-                    .store(true, std::sync::atomic::Ordering::Relaxed);
                 return Err(AnyTlsError::Protocol(format!("Alert: {}", alert_msg)));
             }
             Command::HeartRequest => {
